@@ -852,6 +852,14 @@ pub fn run() {
                 // the full product stays for budgets <= 12; above, every 4th reset list
                 resets = resets.into_iter().step_by(4).collect();
             }
+            if n == 150 {
+                // long lists: an event at every cycle, at every other cycle (descending), every cycle twice
+                ints.push((0..n).collect());
+                ints.push((0..n).rev().step_by(2).collect());
+                ints.push((0..n).flat_map(|c| [c, c]).collect());
+                resets.push((0..n).step_by(11).collect());
+                resets.push((0..n).collect());
+            }
             if n > 1000 {
                 // long runs: a handful of schedules with events on both sides of 2^16
                 ints = vec![vec![], vec![0, n - 1], vec![65_535, 65_536, 65_537], vec![n, 300, 65_540]];
